@@ -32,8 +32,16 @@ PairCasesOther ==
   { [fam |-> "pair", ta |-> tp[1], tb |-> tp[2], cls |-> "x", d |-> 100,
      rel |-> rl[1], nuc1 |-> rl[2], nuc2 |-> rl[3], same |-> FALSE, occa |-> 100, occb |-> 100] :
        tp \in { t \in TypePairs : t[1] = "X" \/ t[2] = "X" }, rl \in Relations }
+\* two DIFFERENT atoms at exactly the same point (distance 0: certainly not further apart than their radii);
+\* within one residue they cannot share a name (that would be one atom listed twice)
+PairCasesZero ==
+  { [fam |-> "pair", ta |-> tp[1], tb |-> tp[2], cls |-> "zero", d |-> 0,
+     rel |-> rl[1], nuc1 |-> rl[2], nuc2 |-> rl[3], same |-> sm, occa |-> oc[1], occb |-> oc[2]] :
+       tp \in { t \in TypePairs : t[1] # "X" /\ t[2] # "X" }, rl \in Relations, sm \in BOOLEAN,
+       oc \in { <<100, 100>>, <<50, 50>>, <<Absent, Absent>> } }
 \* two atoms can only share a name if they share a type
-PairCases == { c \in PairCasesTyped : c.same => c.ta = c.tb } \cup PairCasesOther
+PairCases == { c \in PairCasesTyped \cup { z \in PairCasesZero : ~(z.rel = "same" /\ z.same) } : c.same => c.ta = c.tb }
+             \cup PairCasesOther
 
 GapClasses == { Radius[ta] + Radius[tb] + dl : ta \in Types, tb \in Types,
                 dl \in {0 - 1, 1, MolProbityExtra - 1, MolProbityExtra + 1} } \cup {60, 100, 150, 250, 320}
